@@ -54,6 +54,14 @@ Theorem C06_undirected_eq : forall (L : Type) (leqb : L -> L -> bool) hs (g h : 
                   (forall e v v', lfind e (labels g) = Some v -> lfind e (labels h) = Some v' -> leqb v v' = true)).
 Proof. exact EqualityMore.C06_undirected_eq. Qed.
 Print Assumptions C06_undirected_eq.
+
+(* transitive on the undirected labelled class too *)
+Theorem C06_undirected_trans : forall (L : Type) (leqb : L -> L -> bool) hs (g h k : @dgraph L),
+  (forall x y z, leqb x y = true -> leqb y z = true -> leqb x z = true) ->
+  InvU hs g -> InvU hs h -> InvU hs k -> KeysOK g -> KeysOK h -> KeysOK k ->
+  graph_eqb leqb g h = Val true -> graph_eqb leqb h k = Val true -> graph_eqb leqb g k = Val true.
+Proof. exact EqualityTrans.u_graph_eqb_trans. Qed.
+Print Assumptions C06_undirected_trans.
 Theorem C06_undirected_keys : forall (L : Type) hs V (g : @dgraph L) (ops : list (@uop L)), KeysOK g -> KeysOK (fst (urun hs V g ops)).
 Proof. exact EqualityMore.C06_undirected_keys. Qed.
 Print Assumptions C06_undirected_keys.
